@@ -109,7 +109,9 @@ def valid_images(r, n, hi=38000):
         eol = r.choice([b"\n", b"\r\n"])
         dt = r.choice([1, 1, 2, 3])
         per = r.choice([16, 16, 32, 28, 8, 250 - SREC_ADDR[dt], r.randint(1, 250 - SREC_ADDR[dt])])
-        room = (1 << (8 * SREC_ADDR[dt])) - nd
+        while (1 << (8 * SREC_ADDR[dt])) <= nd + 0x1000 and dt < 3:
+            dt += 1                      # the image must fit in the address space of the record type
+        room = max(1, (1 << (8 * SREC_ADDR[dt])) - nd)
         base = r.choice([0, 0, 0x1000, r.randrange(room)])
         base = base if base < room else 0
         yield ("srec-image", srec_image(r, nd, per, eol, dt=dt, base=base, upper=r.random() < 0.85,
